@@ -16,6 +16,10 @@
    fastpasta/src/words/its/status_words.rs
    fastpasta/src/words/its/status_words/util.rs
    fastpasta/src/analyze/validators/its/cdp_running.rs
+   fastpasta/src/words/its/data_words.rs
+   fastpasta/src/analyze/validators/its/data_words.rs
+   fastpasta/src/analyze/validators/its/data_words/ib.rs
+   fastpasta/src/analyze/validators/its/data_words/ob.rs
 -/
 import FastPasta.Spec.RsPrelude
 import FastPasta.Spec.WordsSrcGen
@@ -25,6 +29,7 @@ set_option linter.unusedVariables false
 namespace FastPasta
 namespace SrcLink
 structure CdpRunningValidator where
+  f_trigger_period : (Option Nat)
   f_running_checks_enabled : Bool
   f_tracker : SrcState.CdpTracker
   f_rdh_validator : SrcState.ItsRdhValidator
@@ -32,16 +37,16 @@ structure CdpRunningValidator where
   f_out : (List Rs.Report)
   deriving DecidableEq, Repr, Inhabited
 def CdpRunningValidator.report_error (self_ : CdpRunningValidator) (error : Rs.Str) (word_slice : Bytes) : (Unit × CdpRunningValidator) :=
-  (let self__1 := { self_ with f_out := (self_.f_out ++ [Rs.Report.mk (SrcState.CdpTracker.current_word_mem_pos (self_.f_tracker)) error word_slice false]) }; ((), self__1))
+  (let self__1 := { self_ with f_out := (self_.f_out ++ [Rs.Report.mk (SrcState.CdpTracker.current_word_mem_pos (self_.f_tracker)) error word_slice false true]) }; ((), self__1))
 
 def CdpRunningValidator.preprocess_ihw (self_ : CdpRunningValidator) (ihw_slice : Bytes) : (Unit × CdpRunningValidator) :=
   (let ihw := (Rs.Res.unwrapD (SrcWords.Ihw.from_buf (ihw_slice))); (let self__2 := (if ((SrcState.StatusWordContainer.sanity_check_ihw (self_.f_status_words) (ihw))).isErr then (let c_1 := (CdpRunningValidator.report_error (self_) (((Rs.Str.lit true [30]).app ((SrcState.StatusWordContainer.sanity_check_ihw (self_.f_status_words) (ihw))).errStr)) (ihw_slice)); (let self__3 := c_1.2; self__3)) else self_); (let c_2 := (SrcState.StatusWordContainer.replace_ihw (self__2.f_status_words) (ihw)); (let self_ := { self__2 with f_status_words := c_2.2 }; ((), self_)))))
 
 def CdpRunningValidator.report_errors (self_ : CdpRunningValidator) (errors : Rs.Str) (word_slice : Bytes) : (Unit × CdpRunningValidator) :=
-  (let self__1 := { self_ with f_out := (self_.f_out ++ [Rs.Report.mk (SrcState.CdpTracker.current_word_mem_pos (self_.f_tracker)) errors word_slice true]) }; ((), self__1))
+  (let self__1 := { self_ with f_out := (self_.f_out ++ [Rs.Report.mk (SrcState.CdpTracker.current_word_mem_pos (self_.f_tracker)) errors word_slice true true]) }; ((), self__1))
 
 def CdpRunningValidator.check_rdh_at_ddw0 (self_ : CdpRunningValidator) (ddw0_slice : Bytes) : (Unit × CdpRunningValidator) :=
-  (if ((SrcState.ItsRdhValidator.check_at_ddw0 (self_.f_rdh_validator))).isErr then (let c_12 := (CdpRunningValidator.report_errors (self_) (((SrcState.ItsRdhValidator.check_at_ddw0 (self_.f_rdh_validator))).errStr) (ddw0_slice)); (let self__2 := c_12.2; ((), self__2))) else ((), self_))
+  (if ((SrcState.ItsRdhValidator.check_at_ddw0 (self_.f_rdh_validator))).isErr then (let c_22 := (CdpRunningValidator.report_errors (self_) (((SrcState.ItsRdhValidator.check_at_ddw0 (self_.f_rdh_validator))).errStr) (ddw0_slice)); (let self__2 := c_22.2; ((), self__2))) else ((), self_))
 
 def CdpRunningValidator.preprocess_ddw0 (self_ : CdpRunningValidator) (ddw0_slice : Bytes) : (Unit × CdpRunningValidator) :=
   (let ddw0 := (Rs.Res.unwrapD (SrcWords.Ddw0.from_buf (ddw0_slice))); (let self__2 := (if ((SrcState.StatusWordContainer.sanity_check_ddw0 (self_.f_status_words) (ddw0))).isErr then (let c_3 := (CdpRunningValidator.report_error (self_) (((Rs.Str.lit true [60]).app ((SrcState.StatusWordContainer.sanity_check_ddw0 (self_.f_status_words) (ddw0))).errStr)) (ddw0_slice)); (let self__3 := c_3.2; self__3)) else self_); (let self_ := (if self__2.f_running_checks_enabled then (let c_4 := (CdpRunningValidator.check_rdh_at_ddw0 (self__2) (ddw0_slice)); (let self_ := c_4.2; self_)) else self__2); (let c_5 := (SrcState.StatusWordContainer.replace_ddw (self_.f_status_words) (ddw0)); (let self__5 := { self_ with f_status_words := c_5.2 }; ((), self__5))))))
@@ -60,6 +65,27 @@ def CdpRunningValidator.check_tdh_continuation (self_ : CdpRunningValidator) (td
 
 def CdpRunningValidator.check_tdh_no_continuation (self_ : CdpRunningValidator) (tdh_slice : Bytes) : (Unit × CdpRunningValidator) :=
   (if ((SrcState.TdhValidator.check_tdh_no_continuation ((Rs.unwrapD (SrcState.StatusWordContainer.tdh (self_.f_status_words)))) ((SrcState.ItsRdhValidator.rdh (self_.f_rdh_validator))))).isErr then (let c_11 := (CdpRunningValidator.report_errors (self_) (((SrcState.TdhValidator.check_tdh_no_continuation ((Rs.unwrapD (SrcState.StatusWordContainer.tdh (self_.f_status_words)))) ((SrcState.ItsRdhValidator.rdh (self_.f_rdh_validator))))).errStr) (tdh_slice)); (let self__2 := c_11.2; ((), self__2))) else ((), self_))
+
+def CdpRunningValidator.preprocess_tdh (self_ : CdpRunningValidator) (tdh_slice : Bytes) : (Unit × CdpRunningValidator) :=
+  (let tdh := (Rs.Res.unwrapD (SrcWords.Tdh.from_buf (tdh_slice))); (let self__2 := (if ((SrcState.StatusWordContainer.sanity_check_tdh (self_.f_status_words) (tdh))).isErr then (let c_12 := (CdpRunningValidator.report_error (self_) (((Rs.Str.lit true [40]).app ((SrcState.StatusWordContainer.sanity_check_tdh (self_.f_status_words) (tdh))).errStr)) (tdh_slice)); (let self__3 := c_12.2; self__3)) else self_); (let c_13 := (SrcState.StatusWordContainer.replace_tdh (self__2.f_status_words) (tdh)); (let self_ := { self__2 with f_status_words := c_13.2 }; ((), self_)))))
+
+def CdpRunningValidator.preprocess_tdt (self_ : CdpRunningValidator) (tdh_slice : Bytes) : (Unit × CdpRunningValidator) :=
+  (let tdt := (Rs.Res.unwrapD (SrcWords.Tdt.from_buf (tdh_slice))); (let self__2 := (if ((SrcState.StatusWordContainer.sanity_check_tdt (self_.f_status_words) (tdt))).isErr then (let c_14 := (CdpRunningValidator.report_error (self_) (((Rs.Str.lit true [50]).app ((SrcState.StatusWordContainer.sanity_check_tdt (self_.f_status_words) (tdt))).errStr)) (tdh_slice)); (let self__3 := c_14.2; self__3)) else self_); (let c_15 := (SrcState.StatusWordContainer.replace_tdt (self__2.f_status_words) (tdt)); (let self_ := { self__2 with f_status_words := c_15.2 }; ((), self_)))))
+
+def CdpRunningValidator.process_ib_data_word (self_ : CdpRunningValidator) (ib_slice : Bytes) : (Unit × CdpRunningValidator) :=
+  (if (!self_.f_running_checks_enabled) then ((), self_) else (let self__1 := (if ((SrcWords.IbDataWordValidator.check (ib_slice) ((SrcWords.Ihw.active_lanes ((Rs.unwrapD (SrcState.StatusWordContainer.ihw (self_.f_status_words)))))))).isErr then (let c_23 := (CdpRunningValidator.report_error (self_) (((SrcWords.IbDataWordValidator.check (ib_slice) ((SrcWords.Ihw.active_lanes ((Rs.unwrapD (SrcState.StatusWordContainer.ihw (self_.f_status_words)))))))).errStr) (ib_slice)); (let self__2 := c_23.2; self__2)) else self_); ((), self__1)))
+
+def CdpRunningValidator.process_ob_data_word (self_ : CdpRunningValidator) (ob_slice : Bytes) : (Unit × CdpRunningValidator) :=
+  (if (!self_.f_running_checks_enabled) then ((), self_) else (let self__1 := (if ((SrcWords.ObDataWordValidator.check (ob_slice) ((SrcWords.Ihw.active_lanes ((Rs.unwrapD (SrcState.StatusWordContainer.ihw (self_.f_status_words)))))))).isErr then (let c_24 := (CdpRunningValidator.report_errors (self_) (((SrcWords.ObDataWordValidator.check (ob_slice) ((SrcWords.Ihw.active_lanes ((Rs.unwrapD (SrcState.StatusWordContainer.ihw (self_.f_status_words)))))))).errStr) (ob_slice)); (let self__2 := c_24.2; self__2)) else self_); ((), self__1)))
+
+def CdpRunningValidator.preprocess_data_word (self_ : CdpRunningValidator) (data_word_slice : Bytes) : (Unit × CdpRunningValidator) :=
+  (let ID_INDEX := 9; (let self__2 := (if ((SrcState.CdpTracker.start_of_data (self_.f_tracker)) && ((bAt data_word_slice ID_INDEX) == SrcWords.Cdw.ID)) then (let c_16 := (CdpRunningValidator.process_cdw (self_) (data_word_slice)); (let self__3 := c_16.2; self__3)) else (let self__2 := (if ((SrcWords.DataWordSanityChecker.check_any (data_word_slice))).isErr then (let c_17 := (CdpRunningValidator.report_error (self_) (((Rs.Str.lit true [70]).app ((SrcWords.DataWordSanityChecker.check_any (data_word_slice))).errStr)) (data_word_slice)); (let self__3 := c_17.2; self__3)) else self_); (let id_3_msb := ((bAt data_word_slice ID_INDEX) >>> 5); (let self_ := (if (id_3_msb == 1) then (let c_18 := (CdpRunningValidator.process_ib_data_word (self__2) (data_word_slice)); (let self_ := c_18.2; self_)) else (let self_ := (if (id_3_msb == 2) then (let c_19 := (CdpRunningValidator.process_ob_data_word (self__2) (data_word_slice)); (let self_ := c_19.2; self_)) else self__2); self_)); self_)))); (let c_20 := (SrcState.CdpTracker.set_data_seen (self__2.f_tracker)); (let self_ := { self__2 with f_tracker := c_20.2 }; ((), self_)))))
+
+def CdpRunningValidator.report_noword (self_ : CdpRunningValidator) (error : Rs.Str) : (Unit × CdpRunningValidator) :=
+  (let self__1 := { self_ with f_out := (self_.f_out ++ [Rs.Report.mk (SrcState.CdpTracker.current_word_mem_pos (self_.f_tracker)) error [] false false]) }; ((), self__1))
+
+def CdpRunningValidator.check_tdh_trigger_interval (self_ : CdpRunningValidator) (_tdh_slice : Bytes) : (Unit × CdpRunningValidator) :=
+  (if (self_.f_trigger_period).isSome then (if ((SrcState.StatusWordContainer.tdh_previous_with_internal_trg (self_.f_status_words))).isSome then (let current_tdh := (Rs.unwrapD (SrcState.StatusWordContainer.tdh (self_.f_status_words))); (if ((SrcWords.Tdh.internal_trigger (current_tdh)) == 1) then (if ((SrcState.TdhValidator.check_trigger_interval (current_tdh) ((Rs.unwrapD (SrcState.StatusWordContainer.tdh_previous_with_internal_trg (self_.f_status_words)))) ((Rs.unwrapD self_.f_trigger_period)))).isErr then (let c_21 := (CdpRunningValidator.report_noword (self_) (((SrcState.TdhValidator.check_trigger_interval (current_tdh) ((Rs.unwrapD (SrcState.StatusWordContainer.tdh_previous_with_internal_trg (self_.f_status_words)))) ((Rs.unwrapD self_.f_trigger_period)))).errStr)); (let self__3 := c_21.2; (c_21.1, self__3))) else ((), self_)) else ((), self_))) else ((), self_)) else ((), self_))
 
 /-! kernel-checked: every literal mask was split into contiguous runs correctly -/
 end SrcLink
